@@ -38,7 +38,10 @@ RULE_ADDED = (
               'Round 9: half of the genuine chains are validated again from fresh objects after'
               ' the clock moved beyond / before the validity period, and once more with the clo'
               'ck back; certificates re-issued by an Ed25519 / Ed448 / RSA / P-384 / P-521 / se'
-              'cp256k1 key. ')
+              'cp256k1 key. '
+              ' '
+              'Round 10: one chain in six holds a certificate valid from 1950 to 9999-12-31T23:'
+              '59:59Z; zero-edged digests in the commitments. ')
 RULE = RULE + " " + RULE_ADDED.strip()
 ASSUMPTIONS = [
     "oracle: pv/oracle/certv2.py; X.509 parsing itself is shared (cryptography), signature "
